@@ -1,6 +1,9 @@
 package props
 
 import (
+	"bufio"
+	"io"
+	"strconv"
 	"encoding/base64"
 	"fmt"
 	"net/http"
@@ -13,7 +16,10 @@ import (
 	"github.com/bolkedebruin/rdpgw/cmd/rdpgw/identity"
 	"pgregory.net/rapid"
 
+	"verif/harness/lab/gwc"
 	"verif/harness/lab/gwproc"
+	"verif/harness/lab/ntlmx"
+	"verif/harness/lab/sess"
 	"verif/harness/lab/idp"
 )
 
@@ -31,6 +37,7 @@ type c13Op struct {
 }
 
 type c13Case struct {
+	NTLM  bool    `json:"ntlm_also_enabled,omitempty"`
 	Store string  `json:"session_store"`
 	Ops   []c13Op `json:"ops"`
 }
@@ -39,6 +46,7 @@ var c13Faults = []string{"", "", "", "unknown-state", "other-instance-state", "s
 
 func genC13(t *rapid.T) c13Case {
 	c := c13Case{Store: rapid.SampledFrom([]string{"cookie", "file"}).Draw(t, "store")}
+	c.NTLM = rapid.IntRange(0, 2).Draw(t, "ntlm") == 0
 	for i, n := 0, rapid.IntRange(1, 9).Draw(t, "nops"); i < n; i++ {
 		op := c13Op{Jar: rapid.IntRange(0, 2).Draw(t, "jar")}
 		switch k := rapid.IntRange(0, 9).Draw(t, "opKind"); {
@@ -49,6 +57,11 @@ func genC13(t *rapid.T) c13Case {
 			op.Fault = rapid.SampledFrom(c13Faults).Draw(t, "fault")
 			op.User = rapid.SampledFrom([]string{"alice", "bob@example.com", "Zoë Ünïcode", "carol"}).Draw(t, "user")
 			op.Claim = rapid.SampledFrom([]string{"preferred_username", "preferred_username", "unique_name", "upn", "username"}).Draw(t, "claim")
+		case k == 7 && c.NTLM && rapid.Bool().Draw(t, "gatewayAuth"):
+			// correct NTLM credentials on the tunnel endpoint, presenting this browser session's cookie: that
+			// authenticates the request, never the browser session
+			op.Op = "gateway-auth"
+			op.User = rapid.SampledFrom([]string{"1", "2", "3"}).Draw(t, "ntlmUser")
 		case k == 7:
 			op.Op = "mutate"
 			op.Kind = rapid.SampledFrom([]string{"subst", "subst", "trunc", "append"}).Draw(t, "mutKind")
@@ -93,7 +106,7 @@ func setSessionCookie(b *browser, in *gwproc.Inst, v string) {
 
 func runC13(c c13Case) *Violation {
 	w := W()
-	o := webOpts{Store: c.Store, HostSelection: "roundrobin", Hosts: []string{"10.1.1.1:3389"}, VerifyIP: true}
+	o := webOpts{Store: c.Store, HostSelection: "roundrobin", Hosts: []string{"10.1.1.1:3389"}, VerifyIP: true, AlsoNTLM: c.NTLM}
 	in, err := webInstance(o)
 	if err != nil {
 		return viol("bin/start", "%v", err)
@@ -193,6 +206,15 @@ func runC13(c c13Case) *Violation {
 				j.unspec = true
 			} else {
 				j.auth, j.broken = false, true
+			}
+		case "gateway-auth":
+			if sessionCookieOf(j.b, in) == nil {
+				j.b.get(in, "/connect") // obtain a session first
+			}
+			if st, err := ntlmGatewayRequest(in, j.b, op.User, c05Password(op.User)); err != nil {
+				return viol("c13/http", "%s: %v", what, err)
+			} else if st == 401 || st == 0 {
+				return viol("c13/setup", "%s: correct NTLM credentials were not accepted on the tunnel endpoint (%d)", what, st)
 			}
 		case "pre-login-cookie":
 			// the cookie this session held before it logged in describes an unauthenticated session
@@ -403,4 +425,58 @@ func TestC13_EXPIRY(t *testing.T) {
 		}
 		return nil
 	})
+}
+
+// ntlmGatewayRequest performs a complete NTLM exchange on the tunnel endpoint over one connection, sending the
+// browser's cookies along (and keeping cookies the gateway sets), with a request that is not hijacked.
+func ntlmGatewayRequest(in *gwproc.Inst, b *browser, user, pass string) (int, error) {
+	c, err := gwc.Target{Addr: in.Addr, TLS: in.TLS}.Dial()
+	if err != nil {
+		return 0, err
+	}
+	defer c.Close()
+	br := bufio.NewReader(c)
+	u, _ := url.Parse(in.URL("/"))
+	send := func(auth string) (httpHead, error) {
+		var sb strings.Builder
+		fmt.Fprintf(&sb, "RDG_IN_DATA %s HTTP/1.1\r\nHost: %s\r\nRdg-Connection-Id: %s\r\nContent-Length: 0\r\n", gwc.GatewayPath, in.Addr, sess.NewConnID())
+		var cks []string
+		for _, ck := range b.Jar.Cookies(u) {
+			cks = append(cks, ck.Name+"="+ck.Value)
+		}
+		if len(cks) > 0 {
+			fmt.Fprintf(&sb, "Cookie: %s\r\n", strings.Join(cks, "; "))
+		}
+		fmt.Fprintf(&sb, "Authorization: %s\r\n\r\n", auth)
+		c.SetDeadline(time.Now().Add(10 * time.Second))
+		if _, err := c.Write([]byte(sb.String())); err != nil {
+			return httpHead{}, err
+		}
+		code, hdr, err := readHead(br)
+		if err != nil {
+			return httpHead{}, err
+		}
+		if cl := hdr["content-length"]; len(cl) > 0 {
+			n, _ := strconv.Atoi(cl[0])
+			io.CopyN(io.Discard, br, int64(n))
+		}
+		if sc := hdr["set-cookie"]; len(sc) > 0 {
+			resp := http.Response{Header: http.Header{"Set-Cookie": sc}}
+			b.Jar.SetCookies(u, resp.Cookies())
+		}
+		return httpHead{code, hdr}, nil
+	}
+	h1, err := send("NTLM " + base64.StdEncoding.EncodeToString(ntlmx.Negotiate()))
+	if err != nil {
+		return 0, err
+	}
+	if h1.Code != 401 {
+		return h1.Code, nil
+	}
+	t3 := ntlmType3([]string{"NTLM"}, h1.Hdr["www-authenticate"], user, pass)
+	if t3 == "" {
+		return 401, nil
+	}
+	h2, err := send(t3)
+	return h2.Code, err
 }
